@@ -9,6 +9,17 @@ import numpy as np
 from . import concrete as C
 
 
+def _own_copy(x):
+    if isinstance(x, (int, float, str, bool, type(None))):
+        return x
+    try:
+        import copy
+
+        return copy.deepcopy(x)
+    except Exception:
+        return x
+
+
 def _map_arrays(x, f, counter, every=False):
     if isinstance(x, np.ndarray):
         if every or (x.ndim >= 2 and min(x.shape) > 1):
@@ -24,12 +35,7 @@ def _map_arrays(x, f, counter, every=False):
     if every:
         # dtype variants: plain arrays only. Everything else (estimators among the arguments ...) gets its OWN copy: the
         # variant is another input, and an object the base sample's call has already fitted is a different history
-        try:
-            import copy
-
-            return copy.deepcopy(x)
-        except Exception:
-            return x
+        return _own_copy(x)
     try:
         import xarray as xr
     except Exception:  # pragma: no cover
@@ -50,7 +56,7 @@ def _map_arrays(x, f, counter, every=False):
             if x.coords[cname].ndim >= 2:
                 new = new.assign_coords({cname: (x.coords[cname].dims, _map_arrays(np.asarray(x.coords[cname].values), f, counter))})
         return new
-    return x
+    return _own_copy(x)  # (an estimator shared with the base sample would arrive already fitted)
 
 
 def layout_variants(args, kwargs):
